@@ -110,7 +110,8 @@ def oracle(case):
             # (ii)/(iii): the trended analysis is the definition with an order-p detrend
             ref1 = refs.dft_stats(x1, y1, D, L, w, om, order)
             refv = (ref1["XX"], ref1["YY"], ref1["XY"], ref1["M2"])
-            for nm, a, b, bud in zip(names, got1, refv, buds):
+            buds_ref = (bx, by, bxy, tol.budget_m2(bxy if y1 is not None else bx, ref1["M2"], b4))
+            for nm, a, b, bud in zip(names, got1, refv, buds_ref):
                 if mode == "auto" and nm == "XY":
                     b = complex(ref1["XX"], 0.0)
                 if not abs(a - b) <= bud:
